@@ -3,6 +3,7 @@ Property theorems for Game2048 (helper lemmas and proofs: Env/Game2048/Lemmas.le
 Rows have ANY length; boards are square (`Square b`: every row as long as the board has rows), any size.
 -/
 import JumanjiModel.Env.Game2048.Lemmas
+import JumanjiModel.Env.Game2048.Bounds
 open Jm Game2048
 
 namespace Props.C09
@@ -95,3 +96,16 @@ namespace Props.C12
 theorem game2048_obs_faithful (s : State) (a : Int) (d : Draw) (hs : Square (step s a d).1.board) :
     (step s a d).2.obs = observe (step s a d).1 := Game2048.obs_faithful s a d hs
 end Props.C12
+
+namespace Props.C01
+open PzB
+/-- the observation returned by `reset` (any size, any first tile): every leaf listed in `obsBounds` is present and
+all its values lie in the listed interval — `board ≥ 0` (the real spec is an unbounded `Array`), `action_mask ∈ [0,1]`.
+No hypothesis is needed. -/
+theorem game2048_reset_obs_in_bounds (n : Nat) (d : Draw) :
+    ObsInBounds (obsBounds n) (obsLeaves (reset n d).2.obs) := Game2048.obs_in_bounds n _
+
+/-- the same for the observation returned by `step`, for every state, action and draw, terminal step included -/
+theorem game2048_step_obs_in_bounds (n : Nat) (s : State) (a : Int) (d : Draw) :
+    ObsInBounds (obsBounds n) (obsLeaves (step s a d).2.obs) := Game2048.obs_in_bounds n _
+end Props.C01
